@@ -325,13 +325,19 @@ def main(tier, seed, replay=None):
         elif kindsel < 0.7:
             # ---- (c) custom targets
             sels = rng.sample(TARGET_SELECTS, rng.randint(1, 2))
-            use_type = rng.random() < 0.4
+            use_type = rng.random() < 0.55
             ttl = PFX + "ex:S a sh:NodeShape ; sh:nodeKind sh:Literal "
             tsols = []
             if use_type:
-                lim = rng.choice([0, 2, 5])
-                ttl += "; sh:target [ a ex:BigN ; ex:limit %d ] " % lim
-                tsols.append([r[0] for r in data.query("PREFIX ex: <http://ex.org/> SELECT ?this WHERE { ?this ex:n ?v . FILTER (?v > $limit) }", initBindings={"limit": Literal(lim)})])
+                # one or two declarations of the same parameterised target type, with different parameter values
+                for lim in rng.sample([0, 2, 5, 9], rng.choice([1, 2, 2])):
+                    ttl += "; sh:target [ a ex:BigN ; ex:limit %d ] " % lim
+                    tsols.append([r[0] for r in data.query("PREFIX ex: <http://ex.org/> SELECT ?this WHERE { ?this ex:n ?v . FILTER (?v > $limit) }", initBindings={"limit": Literal(lim)})])
+                if rng.random() < 0.4:
+                    # and a second parameterised type (selects by another property)
+                    lim2 = rng.choice([1, 4])
+                    ttl += "; sh:target [ a ex:BigM ; ex:limit %d ] " % lim2
+                    tsols.append([r[0] for r in data.query("PREFIX ex: <http://ex.org/> SELECT ?this WHERE { ?this ex:m ?v . FILTER (?v > $limit) }", initBindings={"limit": Literal(lim2)})])
             for sq in sels:
                 ttl += "; sh:target [ a sh:SPARQLTarget ; sh:prefixes ex:prefixes ; sh:select \"%s\" ] " % sq
                 tsols.append([r[0] for r in data.query("PREFIX ex: <http://ex.org/> " + sq)])
@@ -340,6 +346,7 @@ def main(tier, seed, replay=None):
             core = [c for c in core if isinstance(c, URIRef)]
             if use_type:
                 ttl += "ex:BigN a sh:SPARQLTargetType ; rdfs:subClassOf sh:Target ; sh:parameter [ sh:path ex:limit ] ; sh:prefixes ex:prefixes ; sh:select \"SELECT ?this WHERE { ?this ex:n ?v . FILTER (?v > $limit) }\" .\n"
+                ttl += "ex:BigM a sh:SPARQLTargetType ; rdfs:subClassOf sh:Target ; sh:parameter [ sh:path ex:limit ] ; sh:prefixes ex:prefixes ; sh:select \"SELECT ?this WHERE { ?this ex:m ?v . FILTER (?v > $limit) }\" .\n"
             sg = rdflib.Graph().parse(data=ttl, format="turtle")
             o = S.run_validate(data, sg, advanced=True)
             off = S.run_validate(data, sg)
